@@ -34,6 +34,10 @@ TEXT = {
          "Coq proof (closed form of decap by symbolic execution; invariant by induction over call histories; walker termination by a decreasing measure) + differential correspondence"),
  "C08": ("Theorems for the bundled memory: each decap call (any bytes, any well-formed state) conserves buffer identities -- identities in the free list and slots after the call plus the buffer handed out in the result (completed PDU or the buffer inside an error value) are a permutation of those before; over unbounded histories of decap / provision-new / provision-back / new_pdu / reset the buffers held by memory and caller are a permutation of those ever provisioned (no leak), and NoDup is preserved (no duplication). Proved from the closed form of decap and Permutation lemmas on the slot update; the proof also shows save_frag is never called on an occupied slot. Foreign GseDecapMemory implementations are outside (stated in DESIGN.md section 5).",
          "Coq proof (Permutation invariant by induction over call histories, from the closed form of decap) + differential correspondence + multiset oracle"),
+ "C01": ("Theorems: for every PDU, label, protocol type >= 0x600 and buffer for which encap reports Completed(n), every well-formed receiver state whose next free buffer can hold the PDU and which can resolve the label as written, and every tail, decap of the n bytes (+ tail) returns CompletedPkt with exactly the PDU bytes (rest of the storage buffer unchanged), length, protocol type, resolved label, consumes n, and leaves the stated state; encap must complete whenever label-as-written + PDU fit 4095 and the buffer. Proved by composing the closed forms of encap and decap (parsing lemmas for the packet builder).",
+         "Coq proof (composition of the sender and receiver closed forms) + differential correspondence"),
+ "C02": ("Theorems for every PDU up to the 16-bit total length and every schedule of output buffers (induction over the schedule and over the produced train, no bound): the sender's run produces a first fragment and a continuation train; fed in order to any well-formed receiver (free buffer or occupied slot, storage >= PDU, label resolvable) every packet but the last yields FragmentedPkt with the PDU's label and protocol type, the last yields CompletedPkt with the PDU bytes, length, protocol type and label, each consuming exactly the reported length; buffers >= 13 bytes are never rejected and enough of them complete; the effect of each buffer is a function of its size (c02_schedule). crc is any function with 32-bit results.",
+         "Coq proof (slot invariant by induction over the fragment train; schedule induction) + differential correspondence"),
 }
 
 def main():
